@@ -95,7 +95,7 @@ def main(ctx, replay=None):
     if len(uniq) < 20:
         raise MachineryError("too few configurations from the specification")
     exports = fillspec.cached_exports(ctx)
-    ctx.cov["rule"] = ("valid configurations enumerated by TLC from ConfigSpace.tla (about 48 000); a stratified random sample of them (110 quick / "
+    ctx.cov["rule"] = ("valid configurations enumerated by TLC from ConfigSpace.tla (about 37 000; secondary settings NT, QHA order, volume ratio and what is left to the defaults are drawn per configuration from sets the specification exports); a stratified random sample of them (110 quick / "
                        "2500 thorough; every (interpolator, order, nv) triple, system and (T_MIN, DT) class present) is concretised into synthetic data sets and run; "
                        "distinct by configuration; all non-trivial")
     ctx.assumptions += ["finiteness is a floating-point fact observed on the results; the specification enumerates where to look",
